@@ -436,9 +436,14 @@ func (d *Definitions) XML() string {
 // instead of the process, and every event handed to the instance has to pass one forwarding stage per level.
 // Returns false (graph untouched) if the body is not delimited by exactly one flow at either end.
 func nestBody(defs *Definitions, g *Graph, levels int) bool {
+	return nestBodyBetween(defs, g, "Start", "End", levels)
+}
+
+// nestBodyBetween is nestBody for a process whose start and end event carry other ids.
+func nestBodyBetween(defs *Definitions, g *Graph, startID, endID string, levels int) bool {
 	done := false
 	for l := 0; l < levels; l++ {
-		st, en := g.Node("Start"), g.Node("End")
+		st, en := g.Node(startID), g.Node(endID)
 		if st == nil || en == nil || len(st.Out) != 1 || len(en.In) != 1 || len(en.Out) != 0 || len(st.In) != 0 {
 			return done
 		}
